@@ -190,8 +190,8 @@ Proof.
   destruct (remove_cases a (s_tbl st) I) as [(E & Hn & F)|(n & E & Ha & Hin & F & R & I' & Hout)].
   - destruct (t_remove a (s_tbl st)) as [r t'] eqn:TR. cbn in F. subst r. cbn. split; [tauto|]. intros n H. congruence.
   - destruct (t_remove a (s_tbl st)) as [r t'] eqn:TR. cbn in F. subst r.
-    set (st' := mkD t' (s_tc st) (s_mem st)).
-    destruct (check_exact ds st' n al) as (C1 & C2 & C3 & C4). cbn [s_tc s_mem st'] in *.
+    set (st' := with_tbl st t').
+    destruct (check_exact ds st' n al) as (C1 & C2 & C3 & C4). cbn [s_tc s_mem st' with_tbl] in *.
     assert (O : outstanding st a). { unfold outstanding. rewrite <- Ha. apply in_map. assumption. }
     assert (Q : snd (fst (match check ds st' n al with
                           | CNone => (st', check ds st' n al, [(a, n_size n)])
@@ -208,8 +208,8 @@ Proof.
   destruct (remove_cases a (s_tbl st) I) as [(E & Hn & F)|(n & E & Ha & Hin & F & R & I' & Hout)].
   - destruct (t_remove a (s_tbl st)) as [r t'] eqn:TR. cbn in F. subst r. cbn. split; [tauto|]. intros n H. congruence.
   - destruct (t_remove a (s_tbl st)) as [r t'] eqn:TR. cbn in F. subst r.
-    set (st' := mkD t' (s_tc st) (s_mem st)).
-    destruct (check_exact ds st' n al) as (C1 & C2 & C3 & C4). cbn [s_tc s_mem st'] in *.
+    set (st' := with_tbl st t').
+    destruct (check_exact ds st' n al) as (C1 & C2 & C3 & C4). cbn [s_tc s_mem st' with_tbl] in *.
     assert (O : outstanding st a). { unfold outstanding. rewrite <- Ha. apply in_map. assumption. }
     assert (Q : snd (fst (match check ds st' n al with
                           | CNone => (d_store st' na size al, check ds st' n al, true)
@@ -259,23 +259,24 @@ Definition lookup_cat (ds : list adesc) (st : dstate) (al : nat) (p : option N) 
   | None => CNone
   | Some a => match l_retrieve a (flat (s_tbl st)) with None => CNonAlloc | Some n => check ds st n al end
   end.
-Lemma check_indep ds t t' tc m n al : check ds (mkD t tc m) n al = check ds (mkD t' tc m) n al.
+(* checkForCorruption reads the type-checking switch and the memory -- not the table, not the period, not the stage *)
+Lemma check_ext ds st1 st2 n al : s_tc st1 = s_tc st2 -> s_mem st1 = s_mem st2 -> check ds st1 n al = check ds st2 n al.
+Proof. intros Ec Em. unfold check. rewrite Ec, Em. reflexivity. Qed.
+Lemma check_with_tbl ds st t n al : check ds (with_tbl st t) n al = check ds st n al.
 Proof. reflexivity. Qed.
 Lemma dealloc_cat_eq ds jump st al p : Inv (s_tbl st) -> dealloc_cat ds jump st al p = lookup_cat ds st al p.
 Proof.
   intros I. unfold dealloc_cat, d_dealloc, lookup_cat. destruct p as [a|]; [|reflexivity].
   destruct (remove_cases a (s_tbl st) I) as [(E & Hn & F)|(n & E & Ha & Hin & F & R & I' & Hout)];
     destruct (t_remove a (s_tbl st)) as [r t'] eqn:TR; cbn in F; subst r; rewrite E; [reflexivity|].
-  destruct st as [t tc m]. cbn [s_tbl s_tc s_mem] in *. rewrite (check_indep ds t' t).
-  destruct (check ds (mkD t tc m) n al), jump; reflexivity.
+  rewrite check_with_tbl. destruct (check ds st n al), jump; reflexivity.
 Qed.
 Lemma realloc_cat_eq ds jump st al p na size : Inv (s_tbl st) -> realloc_cat ds jump st al p na size = lookup_cat ds st al p.
 Proof.
   intros I. unfold realloc_cat, d_realloc, lookup_cat. destruct p as [a|]; [|reflexivity].
   destruct (remove_cases a (s_tbl st) I) as [(E & Hn & F)|(n & E & Ha & Hin & F & R & I' & Hout)];
     destruct (t_remove a (s_tbl st)) as [r t'] eqn:TR; cbn in F; subst r; rewrite E; [reflexivity|].
-  destruct st as [t tc m]. cbn [s_tbl s_tc s_mem] in *. rewrite (check_indep ds t' t).
-  destruct (check ds (mkD t tc m) n al), jump; reflexivity.
+  rewrite check_with_tbl. destruct (check ds st n al), jump; reflexivity.
 Qed.
 
 (* two memories that show the same guard bytes for every tracked block *)
@@ -357,7 +358,6 @@ Proof.
 Qed.
 
 (* ------------------------------------------------------------------ C06_user_writes_silent *)
-Definition with_mem (st : dstate) (m : memory) : dstate := mkD (s_tbl st) (s_tc st) m.
 Definition C06_user_writes_silent_stmt : Prop :=
   forall ds jump st ws al p, Inv (s_tbl st) -> slots_ok (flat (s_tbl st)) ->
     Forall (fun w => user_write (flat (s_tbl st)) (fst w) (snd w)) ws ->
@@ -439,14 +439,14 @@ Qed.
 Lemma store_facts st a size al : Inv (s_tbl st) -> ~ outstanding st a ->
   let st1 := d_store st a size al in
   Inv (s_tbl st1) /\
-  (forall a', l_retrieve a' (flat (s_tbl st1)) = if a =? a' then Some (mk_node a size al) else l_retrieve a' (flat (s_tbl st))) /\
-  (forall x, In x (flat (s_tbl st1)) <-> x = mk_node a size al \/ In x (flat (s_tbl st))) /\
+  (forall a', l_retrieve a' (flat (s_tbl st1)) = if a =? a' then Some (mk_node a size al (s_period st) (s_stage st)) else l_retrieve a' (flat (s_tbl st))) /\
+  (forall x, In x (flat (s_tbl st1)) <-> x = mk_node a size al (s_period st) (s_stage st) \/ In x (flat (s_tbl st))) /\
   length (flat (s_tbl st1)) = S (length (flat (s_tbl st))) /\
   s_tc st1 = s_tc st /\ s_mem st1 = mwrite (s_mem st) (a + size) pattern.
 Proof.
   intros I Hn st1. unfold outstanding in Hn.
-  destruct (add_flat (mk_node a size al) (s_tbl st) I Hn) as (I1 & A & B & EF & EF1).
-  cbn [st1 d_store s_tbl s_tc s_mem]. split; [assumption|]. split; [|split; [|split; [|split; reflexivity]]].
+  destruct (add_flat (mk_node a size al (s_period st) (s_stage st)) (s_tbl st) I Hn) as (I1 & A & B & EF & EF1).
+  cbn [st1 d_store with_mem with_tbl s_tbl s_tc s_mem]. split; [assumption|]. split; [|split; [|split; [|split; reflexivity]]].
   - intros a'. rewrite EF1, EF. apply retrieve_insert. cbn. rewrite <- EF. assumption.
   - intros x. rewrite EF1, EF, !in_app_iff. cbn. intuition.
   - rewrite EF1, EF, !app_length. cbn. lia.
@@ -470,14 +470,14 @@ Proof.
     - split; assumption.
     - unfold slots_ok in SO. rewrite Forall_forall in SO. apply SO. assumption. }
   pose proof I1 as (_ & _ & ND1).
-  assert (Hin : In (mk_node a size al) (flat (s_tbl st1))) by (apply In1; left; reflexivity).
+  assert (Hin : In (mk_node a size al (s_period st) (s_stage st)) (flat (s_tbl st1))) by (apply In1; left; reflexivity).
   assert (UW : Forall (fun w => user_write (flat (s_tbl st1)) (fst w) (snd w)) ws).
-  { rewrite Forall_forall in *. intros w Hwi. exists (mk_node a size al). split; [assumption|]. cbn. apply Hw. assumption. }
+  { rewrite Forall_forall in *. intros w Hwi. exists (mk_node a size al (s_period st) (s_stage st)). split; [assumption|]. cbn. apply Hw. assumption. }
   assert (Ag : guards_agree (flat (s_tbl st1)) (s_mem st2) (s_mem st1)) by (apply user_writes_agree; assumption).
   pose proof (all_paths_lookup ds jump st2 al2 (Some a) I1 SO1) as AP.
   assert (L : lookup_cat ds st2 al2 (Some a) = CNone).
   { unfold lookup_cat. cbn [s_tbl st2 with_mem]. rewrite R1, N.eqb_refl.
-    destruct (check_exact ds st2 (mk_node a size al) al2) as (_ & _ & C3 & _). apply C3. split.
+    destruct (check_exact ds st2 (mk_node a size al (s_period st) (s_stage st)) al2) as (_ & _ & C3 & _). apply C3. split.
     - intros [_ Hd]. apply Hd. unfold node_alloc. cbn. rewrite Nat2N.id. symmetry. assumption.
     - intros (i & Hi & Hc). apply Hc. rewrite (Ag _ i Hin Hi). rewrite M1. cbn [n_addr n_size mk_node].
       rewrite mread_inside by (rewrite pattern_length; assumption). apply pattern_nth. assumption. }
@@ -488,7 +488,7 @@ Qed.
 (* operator delete / delete[] / free of an outstanding block: whenever the block reaches the allocator's free_memory, the
    allocator sees `size` copies of the poison byte at its address -- also when a mismatch or a corruption was reported *)
 Definition C06_poison_before_free_stmt : Prop :=
-  forall ds jump st e al a n x st', Inv (s_tbl st) -> e <> EString ->
+  forall ds jump st e al a n x st', Inv (s_tbl st) -> poisons e = true ->
     l_retrieve a (flat (s_tbl st)) = Some n ->
     step ds jump st (OpFree e al (Some a)) = (st', Some x) ->
     (o_freed x = [] \/ o_freed x = [(a, Some (repeat poison (N.to_nat (n_size n))))]) /\
@@ -499,20 +499,22 @@ Proof.
   assert (S1 : step ds jump st (OpFree e al (Some a)) =
                let '(st2, c, fr) := d_dealloc ds jump (d_invalidate st (Some a)) (det_alloc ds e al) (Some a) in
                (st2, Some (mkO (calls_of c) (cat_code c) (seen st2 false fr) (total_of st2) false))).
-  { destruct e; try reflexivity. contradiction. }
+  { unfold step. rewrite He. reflexivity. }
   rewrite S1 in Hs. clear S1.
-  assert (Ei : d_invalidate st (Some a) = mkD (s_tbl st) (s_tc st) (mwrite (s_mem st) a (repeat poison (N.to_nat (n_size n))))).
+  assert (Ei : d_invalidate st (Some a) = with_mem st (mwrite (s_mem st) a (repeat poison (N.to_nat (n_size n))))).
   { unfold d_invalidate. rewrite (retrieve_flat _ _ I), E. reflexivity. }
-  rewrite Ei in Hs. unfold d_dealloc in Hs. cbn [s_tbl s_tc s_mem] in Hs.
+  rewrite Ei in Hs. unfold d_dealloc in Hs. cbn [s_tbl s_tc s_mem with_mem] in Hs.
   destruct (remove_cases a (s_tbl st) I) as [(E0 & _)|(n' & E' & Ha & Hin & F & R & I' & Hout)]; [congruence|].
   rewrite E in E'. inversion E'; subst n'. clear E'.
   destruct (t_remove a (s_tbl st)) as [r t'] eqn:TR. cbn in F. subst r.
   set (m' := mwrite (s_mem st) a (repeat poison (N.to_nat (n_size n)))) in *.
   assert (MR : mrange m' a (N.to_nat (n_size n)) = repeat poison (N.to_nat (n_size n))).
   { unfold m'. pose proof (mrange_written (s_mem st) a (repeat poison (N.to_nat (n_size n)))) as H. rewrite repeat_length in H. exact H. }
-  destruct (check_exact ds (mkD t' (s_tc st) m') n (det_alloc ds e al)) as (_ & _ & _ & C4).
-  destruct (check ds (mkD t' (s_tc st) m') n (det_alloc ds e al)) eqn:C; [|exfalso; apply C4; reflexivity|destruct jump|destruct jump];
-    cbn in Hs; inversion Hs; cbn [o_freed o_cat]; fold m'; rewrite ?MR;
+  set (s2 := with_tbl (with_mem st m') t') in *.
+  assert (Em : s_mem s2 = m') by reflexivity.
+  destruct (check_exact ds s2 n (det_alloc ds e al)) as (_ & _ & _ & C4).
+  destruct (check ds s2 n (det_alloc ds e al)) eqn:C; [|exfalso; apply C4; reflexivity|destruct jump|destruct jump];
+    inversion Hs; unfold seen; cbn [map fst snd o_freed o_cat cat_code negb]; rewrite ?Em, ?MR;
     (split; [first [right; reflexivity | left; reflexivity] | intros [H|H]; first [reflexivity | discriminate H]]).
 Qed.
 
@@ -541,7 +543,7 @@ Proof.
   destruct (remove_cases a (s_tbl st) I) as [(E0 & Hn & _)|(n & E & Ha & Hin & F & R & I' & Hout)]; [contradiction|].
   destruct (t_remove a (s_tbl st)) as [r t'] eqn:TR. cbn [fst snd] in F, R, I', Hout. subst r.
   assert (Et : s_tbl st' = t').
-  { destruct (check ds (mkD t' (s_tc st) (s_mem st)) n al), jump; inversion Hd; reflexivity. }
+  { destruct (check ds (with_tbl st t') n al), jump; inversion Hd; reflexivity. }
   rewrite Et. split; [assumption|]. split; [unfold outstanding; rewrite Et; assumption|].
   split; [|split].
   - unfold total_of. rewrite Et, !total_all, R. rewrite <- (rm_length a _ n E). lia.
